@@ -154,10 +154,16 @@ class StructModel:
     def writes(self, f):
         """field idx -> list of Store for stores to self.<field> in body f (self = arg 1)"""
         out = {}
+        from .ir import Store
         for s in f.stores():
             t = s.target
             if tag(t) == 'field' and tag(t[1]) == 'arg' and t[1][1] == 1:
                 out.setdefault(t[2], []).append(s)
+            elif tag(t) == 'arg' and t[1] == 1 and tag(s.value) == 'agg' and s.value[1] == 'adt' and s.value[2] == self.path:
+                # `*self = Struct { a, b, .. }`: a write of every field
+                for i, v in enumerate(s.value[3]):
+                    ty = self.fields[i]['ty'] if i < self.nfields else None
+                    out.setdefault(i, []).append(Store(s.bb, s.idx, ('field', t, i, ty), v, s.span, s.rv))
         return out
 
     def guards_at(self, f, bb):
